@@ -117,6 +117,10 @@ def run_exact(case: dict, out: dict) -> None:
                     add("non_representation_not_rejected_with_LoadError", f"load({x!r}) raised {type(e).__name__}: {str(e)[:80]}")
 
 
+class StrSub(str):
+    pass
+
+
 def run_names(case: dict, seed: int, out: dict) -> None:
     from adaptix import DebugTrail, NameStyle, ProviderNotFoundError, Retort, flag_by_member_names
     cls = make_flag(case["vals"], case["alias"])
@@ -199,6 +203,24 @@ def run_names(case: dict, seed: int, out: dict) -> None:
             except BaseException as e:  # noqa: BLE001
                 if not is_load_error(e):
                     add("non_representation_not_rejected_with_LoadError", f"load({datum!r}) raised {type(e).__name__}")
+        # a string - of whatever class - is one name, never a list of one-letter names (members renamed to single letters)
+        singles = [v for v in ints if bin(v).count("1") == 1][:2]
+        if len(singles) == 2:
+            letters = {cls(v): "xy"[i] for i, v in enumerate(singles)}
+            try:
+                lr = Retort(recipe=[flag_by_member_names(allow_single_value=o["single"], allow_duplicates=o["dups"], allow_compound=o["compound"],
+                                                         map=letters)], debug_trail=dt).get_loader(cls)
+            except Exception as e:  # noqa: BLE001
+                add("creation_fails", f"creation with map to single letters raised {type(e).__name__}: {str(e)[:120]}")
+                continue
+            for datum in ("xy", StrSub("xy")):
+                try:
+                    v = lr(datum)
+                    add("accepts_non_representation", f"members renamed to 'x', 'y': load({datum!r} of class {type(datum).__name__}) = {v!r}", )
+                    out["bad"][-1]["sig"]["datum_class"] = type(datum).__name__
+                except BaseException as e:  # noqa: BLE001
+                    if not is_load_error(e):
+                        add("non_representation_not_rejected_with_LoadError", f"load({datum!r}) raised {type(e).__name__}")
 
 
 # ---- enum (non-flag) classes -------------------------------------------------------------------------
